@@ -307,6 +307,12 @@ func decompose(t *Term, pol bool) []Fact {
 		switch t.Name {
 		case "bytes.Equal", "hmac.Equal":
 			return eqFacts(t.Args[0], t.Args[1], pol)
+		case ".After":
+			// time.Time: a.After(b) is b.Before(a)
+			// (terms built by rules carry no callee)
+			if len(t.Args) == 2 && (t.Callee == nil || t.Callee.Pkg() != nil && t.Callee.Pkg().Path() == "time") {
+				return []Fact{{atomB(&Term{Op: "call", Name: ".Before", Args: []*Term{t.Args[1], t.Args[0]}, Callee: t.Callee, Type: t.Type}), pol}}
+			}
 		}
 	case "const":
 		return nil
